@@ -159,6 +159,11 @@ fn get_text_edit_range_in_string(
         end_offset -= 1;
     }
 
+    // a lone quote is both the opening and the closing one
+    if start_offset > end_offset {
+        return None;
+    }
+
     let new_text_range = TextRange::new(start_offset.into(), end_offset.into());
     // the cursor may sit right behind the closing quote: nothing to complete inside the string then
     if !new_text_range.contains_inclusive(builder.position_offset) {
